@@ -118,7 +118,7 @@ CONFIG = dict(
     harness=dict(pkg="signaling", test="TestVerifC13"),
     stats=c13_stats,
     nontrivial=c13_nontrivial,
-    rule="corpus of 11 witness cases first; static: PRNG chains of 2-9 configurations (1-4 hosts, 0-6 backends, ids "
+    rule="corpus of 12 witness cases first; static: PRNG chains of 2-9 configurations (1-4 hosts, 0-6 backends, ids "
          "added/removed/moved/re-ordered/changed, nested prefixes, http/https, default and other ports, duplicate / "
          "missing / broken / emptied entries, common secret); etcd: 2-30 put/delete events over 2-7 keys incl. host "
          "moves and undecodable/invalid values; concurrent variants (2-5 lookup goroutines during 20 passes of the "
@@ -156,7 +156,8 @@ CONFIG = dict(
 MANIFEST = dict(
     text="Machine-checked Lean 4 theorems about a model of the backend table (static storage: start, Reload = "
          "RemoveBackendsForHost + UpsertHost; etcd storage: EtcdKeyUpdated / EtcdKeyDeleted with keyInfos; lookup = "
-         "host table, scheme rule, first prefix match, dot-segment refusal): for every chain of configurations (lists "
+         "host table, scheme rule, first entry whose url — closed by a '/' when stored without one, as etcd entries are — is a "
+         "prefix of the '/'-closed url, dot-segment refusal): for every chain of configurations (lists "
          "of backends, and raw files with duplicate / missing / incomplete ids) every lookup answers exactly as after "
          "a fresh start from the last one; for every history of etcd put/delete events (invalid values, keys moving "
          "host) the table is the canonical table of the final key/value map, hence equals a fresh start for every "
@@ -170,7 +171,9 @@ MANIFEST = dict(
          "by a differential run of the real BackendConfiguration / backendStorageStatic / backendStorageEtcd against "
          "a fresh instance of the real code and against the model, incl. lookups racing reloads under a watchdog. "
          "Seven defects found on the pinned tree (nested read lock, UpsertHost panic, reload order, etcd host move, "
-         "etcd invalid update, etcd history order, reload of an emptied configuration) are each fixed by one commit.",
+         "etcd invalid update, etcd history order, reload of an emptied configuration) are each fixed by one commit; an eighth "
+         "(an etcd backend /foo, stored without the final slash, also answered for the sibling path /foobar) was shown by C02's "
+         "check, is fixed in getBackendLocked, and the judge's reading of 'accepts' (url lies under the backend's url) now rejects it.",
     note="Trusted: Lean kernel, extractor, harness + comparison, net/url, encoding/json, goconf, the RWMutex model. "
          "Hypotheses: backends mode only (no allowall/allowed), etcd client/watch loop not modelled, deadlock freedom "
          "is of the lock model with extracted lock programs.",
